@@ -316,6 +316,74 @@ def judge(res: Result, case, rec):
     res.extra['routes_resynchronised'] += len(want)
 
 
+def run_clear_wider(res, desc):
+    """`rib clear out` on a session which negotiated only one of the two configured families, then the session is lost and the
+    next one negotiates both: what was cleared stays cleared - nothing of either family is advertised again"""
+    import json as _json
+    import time
+
+    from vlib import daemon, exa
+    from vlib.props.c10 import open_body
+
+    text = 'process player {\n    run @PY@ @DIR@/player.py @DIR@/script @DIR@/replies;\n    encoder json;\n}\n' + exa.neighbor_text(
+        hold=90,
+        families=[(1, 1), (2, 1)],
+        body='    static {\n        route 10.1.0.0/24 next-hop 192.0.2.1;\n        route 10.2.0.0/24 next-hop 192.0.2.1;\n        route 2001:db8:1::/48 next-hop 2001:db8::1;\n        route 2001:db8:2::/48 next-hop 2001:db8::1;\n    }\n',
+        extra='    adj-rib-out true;\n    api { processes [ player ]; }',
+    )
+    d = daemon.Daemon(text, files={'script': '#sleep 1.0\n#wait g1\nrib clear out\n#wait g2\n'})
+    peer = None
+    cls = 'daemon:clear-then-wider-session'
+    try:
+        d.start()
+        peer = d.accept()
+        t, body = peer.read_message(20)
+        peer.conn.sendall(open_body(caps=[rw.cap_mp(1, 1), rw.cap_asn4(65001)]))
+        peer.send(4)
+        if peer.read_message(20)[0] != 4:
+            raise daemon.Inconclusive('no KEEPALIVE on the ipv4-only session')
+        first = peer.drain(quiet=0.8, limit=20)
+        d.wait_lines('replies', lambda ls: any(x.startswith('["wait", "g1"') for x in ls), timeout=60)
+        d.release('g1')
+        d.wait_lines('replies', lambda ls: any(x.startswith('["wait", "g2"') for x in ls), timeout=60)
+        first += peer.drain(quiet=0.8, limit=20)
+        peer.close()
+        peer = d.accept(timeout=60)
+        peer.establish(65001, hold=90)  # mirrors the daemon's OPEN: both families
+        rx = []
+        t_end = time.monotonic() + 60
+        while time.monotonic() < t_end:
+            got = peer.drain(quiet=1.5, limit=20)
+            rx += got
+            if not got:
+                break
+    except daemon.Inconclusive as e:
+        daemon.skipped(res, str(e))
+        return
+    finally:
+        try:
+            if peer is not None:
+                peer.close()
+        except Exception:  # noqa
+            pass
+        d.stop()
+    table = rw.PeerTable()
+    try:
+        for t, b in rx:
+            if t == 2:
+                dec = rw.dec_update(bytes(b), rw.sess(asn4=True, addpath=()))
+                if not dec['eor']:
+                    table.apply(dec)
+    except rw.RefError as e:
+        res.violation('C11/daemon:undecodable-update', str(e), {'level': 'daemon'}, cls)
+        return
+    got = sorted(k[5] for k in table.routes)
+    if got:
+        res.violation('C11/daemon:cleared-routes-readvertised', f'`rib clear out` was answered on a session which had negotiated ipv4 only; after the loss the next session (both families) was sent {got}', {'level': 'daemon', 'first_session_messages': len(first)}, cls)
+    else:
+        res.ok(cls, ('daemon', 'clear-wider'))
+
+
 def run_daemon(desc):
     """the REAL daemon: a scripted peer drops the connection after k messages of a batch (or during the OPEN exchange), a real
     helper process withdraws and announces routes while the session is down, the daemon comes back by itself.  The table the
@@ -329,6 +397,8 @@ def run_daemon(desc):
 
     res = Result()
     r = random.Random(desc['seed'] * 9176327 + desc['part'])
+    if desc['part'] % 2 == 0:
+        run_clear_wider(res, desc)
     for ci in range(desc['cases']):
         n = r.choice([6, 40, 300])
         conf_routes = [('10.%d.%d.0/24' % (i // 250, i % 250), '192.0.2.1', i % 7) for i in range(n)]
